@@ -597,12 +597,10 @@ def rule_R1a(ctx, rep, config="c-lib"):
                 rep.ok("R1a", key, nontrivial=bool(("g", gname) in r1.mw[a] or True),
                        sample={"function": a, "cell": gname, "definitely_written_on_return": c in r1.mw[a]})
     rep.floor("R1a", "API functions x context pointers", n, 14 * 4 if config == "c-lib" else 4)
-    # value agreement
+    # value agreement: wherever a context pointer is assigned, the value is the grammar
+    # object handed to the enclosing function (or a field of it / of the current grammar)
     nv = 0
-    for a in p.api():
-        f = p.m.functions[a]
-        if not f.args or "grammar*" not in f.args[0]["ty"]:
-            continue
+    for f in p.m.defined():
         for i in f.all_insts():
             if i.op != "store":
                 continue
@@ -612,31 +610,44 @@ def rule_R1a(ctx, rep, config="c-lib"):
             nv += 1
             gname = pa.root[1]
             v = strip_casts(f, i.ops[0])
-            key = "%s/%s/value" % (a, gname)
+            key = "%s/%s/value" % (f.name, gname)
             ok = False
-            if gname == "grammar":
-                ok = (v.get("k") == "a" and v["v"] == 0) or v.get("k") == "null"
+
+            def is_grammar_param(o):
+                return o.get("k") == "a" and f.args[o["v"]]["ty"] == "%grammar*"
+
+            def is_current_grammar(o):
+                bi = f.insts.get(o["v"]) if o.get("k") == "i" else None
+                if bi is not None and bi.op == "load":
+                    bp = resolve_addr(f, bi.ops[0])
+                    return bp.root == ("g", "grammar") and not bp.steps
+                return False
+            vi = f.insts.get(v["v"]) if v.get("k") == "i" else None
+            if v.get("k") == "null":
+                ok = True
+            elif gname == "grammar":
+                ok = is_grammar_param(v)
+                if not ok and vi is not None and vi.is_call() and vi.callee in ("yaep_malloc", "yaep_calloc") and f.name == "yaep_create_grammar":
+                    ok = True
             else:
-                vi = f.insts.get(v["v"]) if v.get("k") == "i" else None
                 if vi is not None and vi.op == "load":
                     pp = resolve_addr(f, vi.ops[0])
                     if pp.last_field() == "grammar." + gname and len(pp.fields()) == 1:
-                        if pp.root[0] == "a" and pp.root[1] == 0:
+                        if pp.root[0] == "a" and is_grammar_param({"k": "a", "v": pp.root[1]}):
                             ok = True
-                        elif pp.root[0] == "val":
-                            b = strip_casts(f, pp.root[1])
-                            bi = f.insts.get(b["v"]) if b.get("k") == "i" else None
-                            if bi is not None and bi.op == "load":
-                                bp = resolve_addr(f, bi.ops[0])
-                                ok = bp.root == ("g", "grammar") and not bp.steps
-                if v.get("k") == "null":
-                    ok = True
+                        elif pp.root[0] == "val" and is_current_grammar(strip_casts(f, pp.root[1])):
+                            ok = True
+                elif vi is not None and vi.is_call():
+                    # create: the same value is stored into the new object's field of the same name
+                    for u in f.uses().get(vi.id, []):
+                        if u.op == "store" and resolve_addr(f, u.ops[1]).last_field() == "grammar." + gname:
+                            ok = True
             if ok:
-                rep.ok("R1a", key, sample={"function": a, "store": i.where(), "stores": "g" if gname == "grammar" else "g->" + gname})
+                rep.ok("R1a", key, sample={"function": f.name, "store": i.where(), "cell": gname})
             else:
-                rep.violation("R1a", key, "%s stores into `%s' a value that is not its grammar argument%s" % (a, gname, "" if gname == "grammar" else "'s field of the same name"),
+                rep.violation("R1a", key, "%s stores into `%s' a value that is not the grammar object it was given%s" % (f.name, gname, "" if gname == "grammar" else " (its field of the same name)"),
                               witness=[i.where()], where=i.where())
-    rep.floor("R1a", "stores of the context pointers in API functions taking a grammar", nv, 8 if config == "c-lib" else 0)
+    rep.floor("R1a", "assignments of the context pointers", nv, 4 if config == "c-lib" else 0)
 
 
 def rule_R1b(ctx, rep, config="c-lib", entries=None):
